@@ -7,5 +7,6 @@ CONSTANTS MaxLen, Classes
 VARIABLE s
 Init == s = <<>>
 Next == Len(s) < MaxLen /\ \E c \in Classes : s' = Append(s, c)
+NextSim == Len(s) < MaxLen /\ s' = Append(s, RandomElement(Classes))      \* one successor per step, for -simulate
 Emit == PrintT(ToJson([s |-> s]))
 =============================================================================
